@@ -205,6 +205,31 @@ def run(facts, res):
                                 out.add(x[2])
         return out
     # ------------------------------------------------------------------ U4 references are uniquely decodable
+    # ------------------------------------------------------------------ U5 update always diffs
+    # `update` answers Ok only after both of its passes ran over the submitted document: the pass that deletes the objects that left the
+    # document and the pass that creates / updates the submitted ones. A shortcut return ("same fingerprint as the last submission")
+    # is a cache of "nothing to do" that every other way of changing the replica (refresh, meld + refresh, time travel) must invalidate -
+    # and one of them forgotten means a re-submitted document is silently ignored and read() keeps returning something else.
+    from ..common import pass_anchors, bypassing_returns
+    res.rule("U5", "update returns Ok only after the deletion pass and the update pass over the submitted document")
+    ub = facts.body("melda::Melda::update")
+    if ub is None:
+        res.floor("U5", "Melda::update", 0, 1)
+    else:
+        names = ("update_object", "delete_object", "create_object")
+        anchors = pass_anchors(facts, ub, lambda t: t.callee is not None and t.callee.name in names and
+                               (t.callee.impl_adt or "").endswith("melda::Melda") or (t.callee is not None and t.callee.path in tuple("melda::Melda::" + n_ for n_ in names)), depth=2)
+        byp, oks = bypassing_returns(ub, anchors)
+        res.instance("U5", "update: %d passes (%s); successful returns: %d; returns that bypass a pass: %d" % (
+            len(anchors), sorted({s_.term.callee.name for s_ in anchors.values()}), len(oks), len(byp)), ub.loc())
+        res.floor("U5", "per-object passes of update (deletion pass, update pass)", len(anchors), 2)
+        res.floor("U5", "successful returns of update", len(oks), 1)
+        if byp:
+            a_, o_ = byp[0]
+            res.violation("U5", "update|success-bypasses-diff-pass",
+                          "update can return Ok without running its pass at line %s over the submitted document: the submission is acknowledged and "
+                          "ignored, a following read() returns what was there before" % ub.blocks[a_].term.line, ub.loc(ub.blocks[o_].term.line))
+
     res.rule("U4", "object references are uniquely decodable: no accepted identifier carries a prefix the decoder dispatches on; generated identifiers are injective in the path")
     gi = facts.body("utils::generate_identifier")
     ufb = facts.body("utils::unflatten")
